@@ -117,6 +117,19 @@ def run(R):
                             st = dict(st)
                             st['fut'] = frozenset(['done'])
                             return st
+            if o[0] == 'discr' and o[2] and strip_refs(o[1])[0] == 'field' and strip_refs(o[1])[2] == 'error' and strip_refs(strip_refs(o[1])[1])[0] == 'arg':
+                names_ = {v: n for v, n in o[2]}
+                cur = st['err']
+                if vals == ['else']:
+                    arms_ = set(names_.get(v) for v, _ in body.term(bb)['arms'])
+                    new = set(x for x in cur if x not in arms_)
+                else:
+                    new = set(x for x in cur if x in set(names_.get(v) for v in vals))
+                if not new:
+                    return False
+                st = dict(st)
+                st['err'] = frozenset(new)
+                return st
             if is_call(strip_refs(o), name='is_some') and mentions_field(o, 'error'):
                 cur = st['err']
                 new = cur & ({'None'} if vals == [0] else {'Some'})
